@@ -5,6 +5,9 @@ import XmppModel.Model.Skeleton
     flagged <skeleton>                 -> ok | flagged:<site,…>      the checker's verdict
     exec <skeleton> <oracle> <fuel>    -> norm | brk | cont | ret | stuck | panic:<site>
     panicsite <skeleton> <site>        -> flagged | missed           is the site of an observed panic flagged?
+    serve <input> / helper <name> <type> <reply> -> ok                the model's prediction for every input: the
+                                          theorems C09_library_never_panics and C09_serve_terminates (Props/C09.lean)
+                                          say no execution panics and Serve returns; the harness observes ok|PANIC|STALL
 -/
 namespace XmppModel.Driver.C09
 open XmppModel XmppModel.Skeleton
@@ -28,6 +31,13 @@ def handle (args : List String) : Option String :=
     let s ← decode sk
     let k ← site.toNat?
     pure (if (flagged s).contains k then "flagged" else "missed")
+  | ["serve", inp] => do
+    let _ ← hexDecode inp
+    pure "ok"
+  | ["helper", name, _typ, reply] => do
+    let _ ← hexDecode name
+    let _ ← hexDecode reply
+    pure "ok"
   | _ => none
 
 end XmppModel.Driver.C09
